@@ -75,21 +75,21 @@ def scan_assumptions(asm, sc):
     return found
 
 
-def run_verus_unit(u, tier, seed, work, log, no_fallback=False):
+def run_verus_unit(u, tier, seed, work, log, no_fallback=False, prop=None):
     """returns dict(result=VerusResult, asm=..., sidecar=..., extra=...)"""
     sc = parse_sidecar(os.path.join(u['dir'], 'unit.vx'))
     try:
         asm = assemble(sc)
     except RsxError as e:
         if not no_fallback:
-            fallback_witness(u, sc, work, tier, str(e))
+            fallback_witness(u, sc, work, tier, str(e), prop)
         raise
     if not asm.selfcheck_ok:
         raise Undecided('%s: assembler self-check failed (assembled text minus insertions != rule-rewritten source tokens)' % u['name'])
     assumptions = scan_assumptions(asm, sc)
     res = VB.run_verus(asm, work, u['name'])
     if res.status == 'undecided' and not no_fallback:
-        fallback_witness(u, sc, work, tier, res.reason)
+        fallback_witness(u, sc, work, tier, res.reason, prop)
     return {'res': res, 'asm': asm, 'sc': sc, 'assumptions': assumptions}
 
 
@@ -98,7 +98,7 @@ class FallbackViolation(Exception):
         self.unit, self.failure, self.asm = unit, failure, asm
 
 
-def fallback_witness(u, sc, work, tier, reason):
+def fallback_witness(u, sc, work, tier, reason, prop=None):
     """The deductive run is undecided (anchor lost / the restructured code no longer matches the proof text).
     Before giving up, compile the extracted function natively (rules applied, NO contract splices) and run
     the unit's bounded witness search: a concrete input on which the real function violates the executable
@@ -106,13 +106,19 @@ def fallback_witness(u, sc, work, tier, reason):
     so); if none is found the run stays UNDECIDED (exit 2)."""
     if not u.get('witness'):
         return
+    wp = u['witness'].get('properties')
+    if wp is not None and prop is not None and prop not in wp:
+        return      # the witness harness exercises functions this property does not depend on
     from .replay import search_witness
     try:
         plain = assemble(sc, plain_only=True)
     except RsxError:
         return
-    w, note = search_witness(u, plain.plain, work, tier)
+    w, note = search_witness(u, plain.plain, work, tier, plain.native_items)
     if w is None:
+        return
+    only_panic = u['witness'].get('panic_only_properties', [])
+    if prop in only_panic and 'panic' not in str(w.get('why', '')):
         return
     f = VB.Failure(obligation='%s::contract-on-real-function (bounded native search; deductive run undecided)' % u['name'],
                    message='the verifier run was undecided (%s); the bounded native search on the extracted function found an input that violates the contract: %s'
@@ -244,7 +250,7 @@ def _run(prop, units, tier, seed, work, t0):
                 # a unit may serve a property with its SAFETY obligations only (panic freedom, termination): the functional
                 # clauses of that unit belong to other properties
                 safety_only = prop not in u['properties'] and prop in u.get('safety_properties', [])
-                base = run_verus_unit(u, tier, seed, work, None, no_fallback=safety_only)
+                base = run_verus_unit(u, tier, seed, work, None, no_fallback=(safety_only and not u.get('witness', {}).get('panic_only_properties')), prop=prop)
                 res, asm = base['res'], base['asm']
                 if res.status == 'undecided':
                     raise Undecided('%s: %s' % (name, res.reason))
